@@ -6,6 +6,19 @@ import "github.com/jech/storrent/zzsim/simrt"
 // inject an allocation failure.
 func SimAlloc(size int) ([]byte, error) {
 	if f := simrt.AllocFail; f != nil && simrt.Active() && f(size) {
+		if size >= 128*1024 {
+			// a buffer of this size comes from mmap: let the system call
+			// fail, inside Alloc, rather than the wrapper around it
+			simrt.FailNextMmap()
+			p, err := Alloc(size)
+			if !simrt.MmapFailPending() {
+				return p, err
+			}
+			// Alloc did not reach mmap: fail here as for small buffers
+			if err == nil {
+				Free(p)
+			}
+		}
 		simrt.Fault("alloc-fail")
 		return nil, simrt.ErrSimAlloc
 	}
